@@ -48,7 +48,7 @@ def uf(name, *sorts):
 def som(e):
     """sum-of-monomials normal form: canonical for polynomials, so that equal polynomial
     arguments of uninterpreted functions become syntactically identical."""
-    return z3.simplify(e, som=True)
+    return z3.simplify(e, som=True, sort_sums=True)
 
 
 _PUR = {}
